@@ -74,16 +74,16 @@ def des(run, part, parts):
     # salts: all 4096 12-bit salts split over the shards; 24-bit sample
     for s in range(part, 4096, parts):
         cmp(rng.getrandbits(64), rng.getrandbits(64) if s % 2 else 0, s, 1 if s % 8 else 3, "salt12")
-    for _ in range(600 // parts if run.tier == "quick" else 24000 // parts):
+    for _ in range(600 // parts if run.tier == "quick" else 120000 // parts):
         cmp(rng.getrandbits(64), rng.getrandbits(64), rng.getrandbits(24) | (1 << rng.randrange(24)), rng.choice([1, 1, 2, 25]), "salt24")
-    for _ in range(400 // parts if run.tier == "quick" else 8000 // parts):
+    for _ in range(400 // parts if run.tier == "quick" else 40000 // parts):
         cmp(rng.getrandbits(64), rng.getrandbits(64), 0, 1, "random")
 
 
 def blowfish(run, part, parts):
     from passlib.crypto._blowfish import raw_bcrypt
     rng = run.rng(f"bf{part}")
-    n = (40 if run.tier == "quick" else 400) // parts + 1
+    n = (40 if run.tier == "quick" else 1600) // parts + 1
     lens = [0, 1, 2, 7, 8, 17, 18, 54, 55, 56, 71, 72, 73] + list(range(3, 70, 7))
     for i in range(n):
         ident = ("2", "2a", "2y", "2b")[(i + part) % 4]
